@@ -73,7 +73,10 @@ def r1(cx, rec):
             if x[0] == 'call' and x[4].get('name') == 'index' and show(x[2][1]) == idx:
                 base = x[2][0]
                 p = show(mirq.init_of(base))
-                if re.search(r'index\(self\.peers, addr\)\.pieces$', p.replace('std::ops::Index::', '')):
+                from rules import vocab as V
+                addr_params = [n for n, l, t in C.params_of(F.owner_fn(Ch), r'String|str')]
+                want = ['index(self.%s, %s).%s' % (V.peers_map(F), a, V.peer_bitmap(F)) for a in addr_params]
+                if len(addr_params) == 1 and p.replace('std::ops::Index::', '') == want[0]:
                     need['peer-has'] = True
                     rec.site(Ch, sb, 'Some only if peers[addr].pieces[i]')
         for k, v in need.items():
@@ -222,6 +225,10 @@ def r3(cx, rec):
                 and mirq.root_var(Ch.expr_call(bb)[2][0]) == sorted_vec and bb in Ch.reach_from(sbb)]
         rev = [bb for bb in scan if Ch.expr_call(bb)[4].get('name') == 'rev']
         rec.need(bool(scan) and not rev, 'scan-order', Ch, sbb, 'the sorted candidates are not scanned front to back')
+        # the scan always runs over sorted candidates: no path reaches it around the sort
+        ok_dom, bad = C.must_pass(Ch, [sbb], scan)
+        rec.need(ok_dom, 'scan-without-sort', Ch, sbb, 'the candidates can be scanned without having been sorted by availability '
+                 '(the sort is conditional): on that path the choice is not rarest-first')
     # availability counts all peers
     inc = None
     for bi, si, s in Ch.stores():
@@ -262,3 +269,26 @@ def r4(cx, rec):
                         ok = True
         rec.site(Ch, nb, 'None only on the exhausted edge of the scan: %s' % ok)
         rec.need(ok, 'none-before-exhaustion', Ch, nb, 'None can be returned before every candidate was examined')
+
+
+@TABLE.rule('5', 'K1', 'the advertised set is maintained: handling Have(i) always records pieces[i] = true for that peer', floor=1)
+def r5(cx, rec):
+    F = cx.F
+    from rules import vocab as V
+    bm = V.peer_bitmap(F)
+    hs = [g for g in V._arm_handlers(F, 'RecvHave') if g.self_ty == 'peer::Peer']
+    H = C.one(hs, 'Peer method handling RecvHave')
+    sets = []
+    for bi, si, s in H.stores():
+        le = H.expr_place(s['lhs'])
+        c = const_of(H.expr_rvalue(s['rv']))
+        if le[0] == 'call' and le[4].get('name') in ('index_mut', 'index') and access_path(le[2][0]) == 'self.' + bm and c and c[0] == 1:
+            sets.append((bi, le))
+    rec.need(bool(sets), 'have-not-recorded', H, None, 'a Have announcement is never recorded in the peer\'s advertised set')
+    for bi, le in sets:
+        rec.site(H, bi, 'records %s = true' % show(le)[:60])
+        rec.need(C.is_param(H, le[2][1]), 'have-recorded-wrong-index', H, bi, 'the recorded index %s is not the announced one' % show(le[2][1])[:40])
+    ok, bad = C.must_pass(H, [bi for bi, le in sets], H.return_blocks())
+    rec.need(ok, 'have-not-always-recorded', H, None,
+             'a Have announcement can be handled without recording it in the advertised set: the availability counts and the set of '
+             'pieces this peer can give go stale, and a piece it has is never asked from it')
